@@ -22,13 +22,20 @@ func runC16(c *core.Ctx) {
 		c.Violate(sig, msg+fmt.Sprintf(" [after %d calls]", len(hist)), map[string]any{"history": append([]string{}, hist...)})
 	}
 	nops := r.Range(1, 200)
+	flipDen := 12
+	if r.Chance(1, 16) {
+		// long histories with long fill / drain phases: deep containers (growth and
+		// shrink paths of the backing storage)
+		nops = r.Range(200, 3000)
+		flipDen = 150
+	}
 	next := 0
 	// phases: fill-biased or drain-biased, switching at random
 	fillBias := true
 	emptied, refilled := 0, 0
 	var hh uint64 = 16
 	for i := 0; i < nops; i++ {
-		if r.Chance(1, 12) {
+		if r.Chance(1, flipDen) {
 			fillBias = !fillBias
 		}
 		wIn, wOut := 6, 3
@@ -129,6 +136,8 @@ func runC16(c *core.Ctx) {
 			}
 		}
 		c.Count("observations", 1)
+		c.Max("max_queue_len", int64(len(qm)))
+		c.Max("max_stack_len", int64(len(sm)))
 	}
 	// final drain: everything comes out in order, then empty behaviour
 	for len(qm) > 0 {
